@@ -1,4 +1,26 @@
+//! h_cluster — checks on the cluster crate (varpulis-cluster), see DESIGN.md §3:
+//!   C30 rate limiter bound (E2 histories over a virtual clock)            -> c30.rs
+//!   C33 placement only on available workers, failure-detection timing    -> c33.rs
+//!   C34 event routing deterministic and sticky (single vs batch)         -> c34.rs
+//!   C39 injected connector declarations carry the stored parameters      -> c39.rs
+//! `mock.rs` is the loopback mock worker (warp server on 127.0.0.1) used by C33 and C34.
+
+mod c30;
+mod c33;
+mod c34;
+mod c39;
+mod mock;
+
 fn main() {
     let args = mc::parse_args();
-    mc::machinery_error(&format!("{} is not built yet", args.prop));
+    if std::env::var_os("VERIF_LOUD_PANICS").is_none() {
+        mc::quiet_panics();
+    }
+    match args.prop.as_str() {
+        "C30" => c30::run(args),
+        "C33" => c33::run(args),
+        "C34" => c34::run(args),
+        "C39" => c39::run(args),
+        other => mc::machinery_error(&format!("h_cluster serves C30, C33, C34 and C39, not {other}")),
+    }
 }
